@@ -1,5 +1,6 @@
 (** Shared arithmetic and printing helpers. Stdlib only; no proofs about the runtime here. *)
-From Coq Require Export List ZArith Bool Lia String Ascii.
+From Coq Require Export List ZArith Bool Lia.
+From Coq Require Import String Ascii.
 Export ListNotations.
 Open Scope Z_scope.
 
@@ -41,7 +42,7 @@ Definition sumZ (l : list Z) : Z := fold_right Z.add 0 l.
 
 (** Verdict printing used by every Cases file: one line per case,
     ["c=<0|1> p=<0|1> t=<tag>,<tag>"]. *)
-Open Scope string_scope.
+Local Open Scope string_scope.
 Definition b2s (b : bool) : string := if b then "1" else "0".
 Fixpoint join (sep : string) (l : list string) : string :=
   match l with
@@ -55,4 +56,3 @@ Definition verdict_line (v : verdict) : string :=
        ++ " n=" ++ v_note v.
 Definition nl : string := String (ascii_of_nat 10) EmptyString.
 Definition verdict_lines (vs : list verdict) : string := join nl (map verdict_line vs).
-Close Scope string_scope.
